@@ -11,7 +11,7 @@ from .common import gen_knobs, pick
 from .framing import delivered_equals_complete
 from .hist import Index
 
-NAMES = ["simdev", "simdeV", "simde", "other", "othex", "a", "living-room-node", "dév", "dev"]
+NAMES = ["simdev", "simdeV", "simde", "other", "othex", "a", "living-room-node", "dév", "dev", "", "simdev "]
 
 
 def noise_ready_oracle(ix: Index, scn: dict) -> list[Violation]:
@@ -73,7 +73,7 @@ def helper_case(rng: random.Random, cuts: dict, base: dict | None = None) -> dic
         psk = base64.b64encode(bytes(rng.getrandbits(8) for _ in range(32))).decode()
         name = pick(rng, NAMES)
         has_name = rng.random() < 0.8
-        exp = pick(rng, [None, None, name, name, pick(rng, NAMES)])
+        exp = pick(rng, [None, None, name or None, name or None, pick(rng, NAMES[:9])])
         msgs = []
         for _ in range(rng.randint(0, 8)):
             ln = pick(rng, [0, 1, 5, 100, 127, 128, 1000] if tiny else [0, 1, 5, 100, 127, 128, 1000, 16384, 65000])
@@ -129,7 +129,7 @@ class C03(CheckBase):
             # through the full client
             psk = base64.b64encode(bytes(rng.getrandbits(8) for _ in range(32))).decode()
             name = pick(rng, NAMES)
-            exp = pick(rng, [None, name, name, "other"])
+            exp = pick(rng, [None, name or None, name or None, "other"])
             sizes = [pick(rng, [1, 2, 3, 7, 20, 50, 128, 1000]) for _ in range(rng.randint(1, 5))]
             msgs = [pick(rng, [["SensorStateResponse", {"key": 2, "state": 1.0}], ["CameraImageResponse", {"key": 1, "data": {"gen": [pick(rng, [10, 1000, 4000]), 5]}, "done": True}], ["SwitchStateResponse", {"key": 1, "state": True}]]) for _ in range(rng.randint(1, 8))]
             client = {"addresses": ["10.0.0.5"], "keepalive": 60.0, "noise_psk": psk}
